@@ -284,6 +284,21 @@ def handle (op : String) (args : List String) : String :=
   | "evStrict", [ds, env, e] => match parseVal ds, parseEnv env, parseExpr e with
     | some ds, some env, some e => resStr (ev (driverWorld ds) (Env.ofList env.reverse) e)
     | _, _, _ => bad
+  | "pick", [caller, argNames, cands] =>
+    match SExpr.parse caller, (SExpr.parse argNames).bind strsOfSExpr, SExpr.parse cands with
+    | some c, some an, some (.list cs) =>
+      let callerO : Option String := match c with
+        | .str s => some s
+        | _ => none
+      let parsed := cs.mapM (fun x => match x with
+        | .list [k, ps] => (strsOfSExpr ps).map (fun ps => ({ key := (match k with | .str s => some s | _ => none), params := ps } : Cand))
+        | _ => none)
+      (match parsed with
+       | some cl => (match pickLambda callerO an cl with
+         | .ok i => "ok\t" ++ toString i
+         | .error err => "err\t" ++ err.render)
+       | none => bad)
+    | _, _, _ => bad
   | "ev", [ds, env, e] => match parseVal ds, parseEnv env, parseExpr e with
     | some ds, some env, some e => resStr (evLz (driverWorld ds) (Env.ofList env.reverse) e)
     | _, _, _ => bad
